@@ -619,6 +619,7 @@ def gen_pwl(ctx, rng, out):
     a = tfimpl.dy(rng, -3, 3)
     omin = a if bmode in ("min", "both") else None
     omax = a + rng.choice([1.0, 2.0, 4.0]) if bmode in ("max", "both") else None
+    omin, omax = tfimpl.zero_bound(rng, omin, omax)
     cmin = omin is not None and rng.random() < 0.4
     cmax = omax is not None and rng.random() < 0.4
     kps = sorted(rng.sample([x / 2.0 for x in range(-8, 9)], n))
@@ -1007,6 +1008,7 @@ def gen_categorical(ctx, rng, out):
     a = tfimpl.dy(rng, -2, 2)
     omin = a if bmode in ("min", "both") else None
     omax = a + 4.0 if bmode in ("max", "both") else None
+    omin, omax = tfimpl.zero_bound(rng, omin, omax)
     lo = omin if omin is not None else (omax - 4.0 if omax is not None else -2.0)
     K = np.array([[lo + rank[b_] * rng.choice([0.0, 0.5, 1.0]) for _ in range(units)] for b_ in range(nb)])
     eps = rng.choice(EPS)
@@ -1162,6 +1164,7 @@ def gen_kfl(ctx, rng, out):
     a = tfimpl.dy(rng, -2, 2)
     omin = a if bmode in ("min", "both") else None
     omax = a + rng.choice([1.0, 2.0, 4.0]) if bmode in ("max", "both") else None
+    omin, omax = tfimpl.zero_bound(rng, omin, omax)
     bound = (omax - omin) / 2.0 if bmode == "both" else 1.0
     if bmode == "min":
       sc = [0.0, 0.5, 1.0, 2.0]
